@@ -220,6 +220,8 @@ def enc_mr(m):
             return head + struct.pack('<H', len(m['attributes'])) + b''.join(struct.pack('<H', a) for a in m['attributes'])
         if m['status'] != 0:
             return head
+        if 'items' not in m:            # as decoded: the items cannot be delimited without the attribute types
+            return head + bytes.fromhex(m['raw'])
         out = head + struct.pack('<H', len(m['items']))
         for attr, st, value in m['items']:
             out += struct.pack('<HH', attr, st) + bytes.fromhex(value)
